@@ -72,4 +72,24 @@ CHECKS = {
                    "problems (handshake/receive time-outs) are reported as inconclusive (exit 2), never as violations.",
         assumptions=["at most 6 messages are in flight per socket (below the PUB high-water mark of 100), so ZMQ itself never drops"],
     ),
+    "C15": dict(
+        pkg="./packets", hdir="packets", test="TestVerif_C15(RT|RAW)?", ids=["C15", "C15RT", "C15RAW"], custom="c15_fuzz",
+        quick=dict(shards=16, checks=6000, timeout=300),
+        thorough=dict(shards=16, checks=150000, timeout=2400, fuzz_seconds=100),
+        technique="property-based testing (rapid, structure-aware packet grammar) + encode/decode round trip + coverage-guided native go fuzzing (thorough tier)",
+        rule="(i) rapid-generated byte strings = valid 16-byte header + 0-5 TLVs from a grammar (every TLV type; hostile sizes 0/too big/255; "
+             "format strings incl. empty, endian-only, multi-type, unknown letters; shapes with zero/negative/huge dims; timestamp units with "
+             "0/63/64/65 bits and zero numerator) + payload, with lying header/payload lengths, bad magic, truncation or trailing bytes; "
+             "(ii) rapid-generated packets built with NewPacket/SetTimestamp/NewData (int16/32/64, 1-4 positive dims, frames 1..beyond the "
+             "maximum packet length) encoded and decoded; (iii, thorough) native fuzzing of the same decode oracle from empty, valid and hostile "
+             "corpora. non-trivial = decode succeeded with >= 2 TLVs and a non-empty typed payload / round trip with >= 2 frames; "
+             "distinct = FNV-64 of the generated case",
+        level_text="ReadPacket and every accessor (Frames, ChannelInfo, Length, Timestamp, IsExternalTrigger, SequenceNumber, String, "
+                   "ReadValue at -1/0/last/last+1, MakePretendPacket) are exercised on each generated byte string; any panic, over-read "
+                   "beyond the declared length or inconsistent size is a violation. decode(encode(p)) must reproduce version, source id, "
+                   "sequence number, offset, shape, all samples and the timestamp counter.",
+        level_note="Byte strings are bounded by the maximum datagram size (8192+64). Native fuzzing cannot be seeded deterministically; its "
+                   "saved crashers are the reproducible unit and are replayed through the same oracle.",
+        assumptions=["little-endian host (the decoder reinterprets the payload in place)"],
+    ),
 }
